@@ -311,6 +311,9 @@ fn handle_item(
                             Error::BadCall(e.to_string(), pos, None)
                         }
                     })?;
+                if let Some(source) = &mixin.loading {
+                    file_context.unlock_loading(source);
+                }
             } else {
                 return Err(Error::BadCall(
                     "Undefined mixin.".into(),
